@@ -145,6 +145,15 @@ func propC02(o *out, r *rng, thorough bool) {
 		"SELECT v FROM \"\".rp.m", "SELECT v FROM \"\"..m", "SELECT v INTO \"\".rp.t FROM m", "SELECT v INTO \"\".\"\".\"\" FROM m", "SHOW TAG KEYS ON \"\" FROM \"\""} {
 		c02One(o, w, "witness")
 	}
+	// every backslash escape the scanner might accept, in a string and in a quoted name: what is accepted must print
+	// in a form that reads back
+	for c := rune(1); c < 0x100; c++ {
+		if c == 0x80 {
+			c = 0xa0
+		}
+		c02One(o, "SELECT v FROM m WHERE x = 'a\\"+string(c)+"b'", "escape")
+		c02One(o, "SELECT \"a\\"+string(c)+"b\" FROM m", "escape")
+	}
 }
 
 func init() {
